@@ -29,5 +29,14 @@ pub mod sc {
     }
     /// not on the '\n' of a "\r\n" pair (where back() would step over both bytes)
     pub open spec fn settled(s: Scanner) -> bool { !(s.ofs > 0 && s.ofs < s.buf@.len() && s.buf@[s.ofs as int] == 10u8 && s.buf@[s.ofs - 1] == 13u8) }
+
+    // --- C15: the flattened parse result
+    pub open spec fn views(v: Seq<&str>) -> Seq<Seq<char>> { Seq::new(v.len(), |i: int| v[i]@) }
+    pub open spec fn flat(res: Seq<(&str, Vec<&str>)>) -> Seq<Seq<char>>
+        decreases res.len()
+    { if res.len() == 0 { Seq::empty() } else { flat(res.drop_last()) + views(res.last().1@) } }
+    pub proof fn lemma_flat_push(res: Seq<(&str, Vec<&str>)>, k: &str, v: Vec<&str>)
+        ensures flat(res.push((k, v))) == flat(res) + views(v@)
+    { assert(res.push((k, v)).drop_last() =~= res); }
     }
 }
